@@ -259,6 +259,27 @@ func (e *daemonEngine) runDKGSteps(res *RunResult) {
 					}
 					opts.Remaining = rem
 					mustFail = true
+				case "reshare_few_remainers":
+					// fewer remaining members than the threshold of the group that holds the secret, the number
+					// made up by a joiner: the old shares cannot hand the secret over
+					pt := cc.epochs[len(cc.epochs)-1].group.Threshold
+					if e.sc.Extra > 0 && inGroup && pt >= 2 && len(opts.Remaining) >= pt {
+						var rem, leave []*pdkg.Participant
+						rem = append(rem, e.participant(n, id))
+						for _, p := range opts.Remaining {
+							switch {
+							case p.Address == n.addr:
+							case len(rem) < pt-1:
+								rem = append(rem, p)
+							default:
+								leave = append(leave, p)
+							}
+						}
+						opts.Remaining, opts.Leaving = rem, leave
+						opts.Joining = []*pdkg.Participant{e.participant(e.nodes[e.sc.N], id)}
+						opts.Threshold = uint32(len(rem) + 1)
+						mustFail = true
+					}
 				case "reshare_unknown_remainer":
 					if e.sc.Extra > 0 {
 						opts.Remaining = append(opts.Remaining, e.participant(e.nodes[e.sc.N], id))
